@@ -239,6 +239,11 @@ def scanner(rep, f, c, labels):
                     store_same = store_same | s
                 elif val == ('bin', 'Add', xkey, ('c', 0x20, 'u8')):
                     store_lower = store_lower | s
+                elif val[0] == 'call' and (val[1] or '').endswith('::to_ascii_lowercase') and len(val[2]) == 1 and \
+                        (strip_ref(val[2][0]) == xkey or val[2][0] == xkey or strip_ref(val[2][0]) == strip_ref(xkey[1] if xkey[0] == 'deref' else xkey)):
+                    # u8::to_ascii_lowercase: + 0x20 for A-Z, the identity for every other byte (core semantics)
+                    store_lower = store_lower | (s & UPPER)
+                    store_same = store_same | (s - UPPER)
                 else:
                     store_other = store_other | s
         to = {j: ra.reach_of(nb2) for j, nb2 in enumerate(nexts)}
